@@ -176,9 +176,9 @@ Section WinHalf.
     all: try (subst s5 s4 s3 s2 s1; now sysr).
     all: try reflexivity.
     all: try (intros x; subst s5 s4 s3 s2 s1; now sysr).
-    - unfold quiet. subst ty3 ty2 ty1. tcb_simpl. splits; try assumption; try reflexivity; try lia.
-    - destruct Qz as (Z1 & Z2 & Z3 & Z4 & Z5 & Z6 & Z7 & Z8 & Z9 & Z10 & Z11 & Z12 & Z13 & Z14 & Z15 & Z16 & Z17).
-      unfold quiet. tcb_simpl. splits; auto; lia.
-    - cbn. congruence.
+    all: try (unfold quiet; subst ty3 ty2 ty1; tcb_simpl; splits; try assumption; try reflexivity; lia).
+    all: try (destruct Qz as (Z1 & Z2 & Z3 & Z4 & Z5 & Z6 & Z7 & Z8 & Z9 & Z10 & Z11 & Z12 & Z13 & Z14 & Z15 & Z16 & Z17);
+              unfold quiet; tcb_simpl; splits; auto; lia).
+    all: try (cbn [set_in_text mtu]; congruence).
   Qed.
 End WinHalf.
